@@ -11,7 +11,9 @@ import (
 
 	"verif/internal/h"
 
+	"github.com/tuneinsight/lattigo/v6/circuits/common/lintrans"
 	"github.com/tuneinsight/lattigo/v6/core/rlwe"
+	"github.com/tuneinsight/lattigo/v6/ring"
 	"pgregory.net/rapid"
 )
 
@@ -40,14 +42,21 @@ type PM struct {
 }
 
 // modes of evaluation
-var modes = []string{"eval", "evalInPlace", "evalNew", "many", "manyNew", "seq", "seqNew", "seqInPlace"}
+var modes = []string{"eval", "evalInPlace", "evalNew", "many", "manyNew", "seq", "seqNew", "seqInPlace", "manyLastInPlace"}
+
+// receiver kinds of the modes that take a caller-provided receiver (eval, many, seq): fresh zero ciphertext at or above
+// the output level; fresh below the output level; the output of the previous round of the case (an object with a
+// history); a degree-2 ciphertext full of data at or above the output level.
+var recvKinds = []string{"", "", "low", "prev", "deg2"}
+
+func inPlace(m string) bool { return strings.HasSuffix(m, "InPlace") }
 
 func isSeq(m string) bool  { return strings.HasPrefix(m, "seq") }
 func isMany(m string) bool { return strings.HasPrefix(m, "many") }
 
 // genDiagSet draws a set of diagonal indices in (-n, n) with pairwise distinct residues modulo n.
 func genDiagSet(t *rapid.T, n int, label string) (idx []int, class string) {
-	kind := rapid.IntRange(0, 9).Draw(t, label+"_setkind")
+	kind := rapid.IntRange(0, 19).Draw(t, label+"_setkind") % 11 // 10: the empty set (all-zero matrix), rare
 	signed := func(r int, neg bool) int {
 		if neg && r != 0 {
 			return r - n
@@ -55,6 +64,11 @@ func genDiagSet(t *rapid.T, n int, label string) (idx []int, class string) {
 		return r
 	}
 	switch kind {
+	case 10:
+		if rapid.IntRange(0, 1).Draw(t, label+"_empty") == 0 {
+			return []int{}, "empty"
+		}
+		return []int{0}, "zero"
 	case 0:
 		return []int{0}, "zero"
 	case 1:
@@ -158,11 +172,9 @@ func residues(d []int, n int) []int {
 	return out
 }
 
-// validDiagSet checks the input-domain rule of the property (indices in (-n,n), distinct residues, non-empty).
+// validDiagSet checks the input-domain rule of the property (indices in (-n,n), distinct residues; the empty set is the
+// all-zero matrix).
 func validDiagSet(d []int, n int) bool {
-	if len(d) == 0 {
-		return false
-	}
 	seen := map[int]bool{}
 	for _, k := range d {
 		if k <= -n || k >= n {
@@ -192,6 +204,8 @@ func setClass(d []int, n int) (hasNeg, hasHigh bool) {
 
 func sizeClass(k, n int) string {
 	switch {
+	case k == 0:
+		return "0"
 	case k == 1:
 		return "1"
 	case k == n:
@@ -425,4 +439,98 @@ func denseSet(t *rapid.T, n int, label string) []int {
 		}
 	}
 	return idx
+}
+
+// keyEmpty: a transformation without any non-zero diagonal (the zero matrix, e.g. the diagonals of an empty permutation)
+// must give an encryption of zero or an error; the naive algorithm indexes keys[0] of an empty list (panic) and the BSGS
+// algorithm ModDowns an accumulator it never wrote.
+const keyEmpty = "C12:lintrans:empty-diagonal-set:panic-or-garbage"
+
+// keyNoP: without auxiliary primes in use (parameters without P, or LevelP = -1 for keys and transformation) the
+// evaluation must work or return an error; it dereferences the nil P ring / indexes ModulusAtLevel[-1] instead.
+const keyNoP = "C12:lintrans:LevelP=-1:panic-instead-of-error"
+
+func hasEmptySet(lts []LT) bool {
+	for _, l := range lts {
+		if l.Perm == nil && len(l.Diags) == 0 {
+			return true
+		}
+	}
+	return false
+}
+
+// guard runs f; if it panics and keyFor() names a specific finding class for this case, the panic is returned as
+// (key, message); any other panic is passed on to the harness.
+func guard(keyFor func() string, f func()) (key, msg string) {
+	defer func() {
+		if r := recover(); r != nil {
+			if k := keyFor(); k != "" {
+				key, msg = k, fmt.Sprintf("panic: %v", r)
+				return
+			}
+			panic(r)
+		}
+	}()
+	f()
+	return "", ""
+}
+
+// snapshots ---------------------------------------------------------------------------------------------------------
+
+func fnvU64(hh uint64, v []uint64) uint64 {
+	for _, x := range v {
+		hh ^= x
+		hh *= 0x100000001b3
+	}
+	return hh
+}
+
+func hashPoly(hh uint64, p ring.Poly) uint64 {
+	for _, c := range p.Coeffs {
+		hh = fnvU64(hh^uint64(len(c)), c)
+	}
+	return hh
+}
+
+// hashCt covers the polynomials, the level/degree and the scale of a ciphertext.
+func hashCt(ct *rlwe.Ciphertext) uint64 {
+	hh := uint64(0xcbf29ce484222325) ^ uint64(len(ct.Value))
+	for _, v := range ct.Value {
+		hh = hashPoly(hh, v)
+	}
+	f, _ := ct.Scale.Value.Float64()
+	return fnvU64(hh, []uint64{math.Float64bits(f), uint64(ct.LogDimensions.Cols), uint64(ct.LogDimensions.Rows)})
+}
+
+// hashLT covers the encoded diagonals and the public fields of a linear transformation.
+func hashLT(lt lintrans.LinearTransformation) uint64 {
+	hh := uint64(0xcbf29ce484222325)
+	keys := make([]int, 0, len(lt.Vec))
+	for k := range lt.Vec {
+		keys = append(keys, k)
+	}
+	sort.Ints(keys)
+	for _, k := range keys {
+		hh = fnvU64(hh, []uint64{uint64(k)})
+		hh = hashPoly(hh, lt.Vec[k].Q)
+		hh = hashPoly(hh, lt.Vec[k].P)
+	}
+	f, _ := lt.Scale.Value.Float64()
+	return fnvU64(hh, []uint64{math.Float64bits(f), uint64(lt.N1), uint64(lt.LevelQ), uint64(lt.LevelP + 1), uint64(lt.LogBabyStepGiantStepRatio + 64)})
+}
+
+func hashKeys(keys []*rlwe.GaloisKey) uint64 {
+	hh := uint64(0xcbf29ce484222325)
+	for _, k := range keys {
+		hh = fnvU64(hh, []uint64{k.GaloisElement, k.NthRoot})
+		for _, row := range k.Value {
+			for _, el := range row {
+				for _, p := range el {
+					hh = hashPoly(hh, p.Q)
+					hh = hashPoly(hh, p.P)
+				}
+			}
+		}
+	}
+	return hh
 }
